@@ -214,7 +214,11 @@ impl Scope {
                             //         read_number_of_ext_fields
                             //     )));
                         }
-                        let range = bits.pos()..bits.pos() + *number_of_ext_fields;
+                        // the presence bitmap has as many bits as the sender has announced: additions
+                        // this version knows beyond them are absent, those it does not know are
+                        // skipped by `skip_unknown_extension_additions`
+                        let range =
+                            bits.pos()..bits.pos().saturating_add(read_number_of_ext_fields);
                         bits.set_pos(range.start.saturating_add(read_number_of_ext_fields)); // skip bit-field
                         *self = Scope::AllBitField(range);
                     } else {
@@ -878,6 +882,31 @@ impl<B: ScopedBitRead> UperReader<B> {
         result
     }
 
+    /// To be called after all components known to this version of an extensible SEQUENCE have been
+    /// read: consumes the extension additions a newer version of the type has sent beyond them
+    /// (each one is an open type: a length determinant and that many octets).
+    fn skip_unknown_extension_additions(&mut self) -> Result<(), Error> {
+        loop {
+            let more = match &self.scope {
+                // the sender announced more additions than this version knows
+                Some(Scope::AllBitField(range)) => range.start < range.end,
+                // this version knows no addition at all: the extension part is still unread
+                Some(Scope::ExtensibleSequence {
+                    calls_until_ext_bitfield,
+                    ..
+                }) => *calls_until_ext_bitfield == 0,
+                _ => false,
+            };
+            if !more {
+                return Ok(());
+            }
+            if self.read_bit_field_entry(true)?.unwrap_or(false) {
+                let length = self.read_length_determinant(None, None)?;
+                self.read_whole_sub_slice(length as usize, |_| Ok(()))?;
+            }
+        }
+    }
+
     #[inline]
     pub fn read_bit_field_entry(&mut self, is_opt: bool) -> Result<Option<bool>, Error> {
         #[allow(clippy::let_and_return)]
@@ -984,7 +1013,11 @@ impl<B: ScopedBitRead> Reader for UperReader<B> {
                         calls_until_ext_bitfield: (extension_after + 1) as usize,
                         number_of_ext_fields: (C::FIELD_COUNT - (extension_after + 1)) as usize,
                     },
-                    f,
+                    |r| {
+                        let value = f(r)?;
+                        r.skip_unknown_extension_additions()?;
+                        Ok(value)
+                    },
                 )
             } else {
                 r.scope_pushed(Scope::OptBitField(range), f)
